@@ -69,7 +69,7 @@ REGISTRY = {
                         eng("topic_check", "vh_channels", budget_q=6, budget_t=120, shards={"quick": 8, "thorough": 16}),
                         eng("chan_seq", "vh_channels", budget_q=5, budget_t=120, shards={"quick": 8, "thorough": 16})],
             "assumptions": COMMON_ASSUME},
-    "C05": {"engines": [stress(), asan("chan_stress", budget_t=90)], "assumptions": COMMON_ASSUME + SAN_ASSUME + [
+    "C05": {"engines": [stress(), asan("chan_stress", budget_t=90), tsan("chan_stress", budget_t=120)], "assumptions": COMMON_ASSUME + SAN_ASSUME + [
         "progress verdicts: a thread counts as stuck only after 3 quiet windows with a healthy scheduler canary, all "
         "unfinished threads inside blocking calls, and either a legal spurious wake releases it or the history model "
         "shows its operation enabled"]},
@@ -80,7 +80,7 @@ REGISTRY = {
                         miri("chan_stepper"), miri("chan_stress", budget_t=240)], "assumptions": COMMON_ASSUME + SAN_ASSUME + [
         "stepper: one in-flight future per handle; a Stream poll is followed through to Ready (abandoning the wrapper "
         "drops no library future); wakers never poll inline"]},
-    "C09": {"engines": [stress(budget_q=20), stepper(budget_q=6, budget_t=90), asan("chan_stress"), asan("chan_stepper", budget_t=60),
+    "C09": {"engines": [stress(budget_q=20), stepper(budget_q=6, budget_t=90), asan("chan_stress"), asan("chan_stepper", budget_t=60), tsan("chan_stress", budget_t=120),
                         miri("chan_stress"), miri("chan_stepper", budget_t=240)], "assumptions": COMMON_ASSUME + SAN_ASSUME},
     "C18": {"engines": [eng("ioc_check", "vh_ioc")], "assumptions": SEQ_ASSUME + [
         "cycle cases run in child processes; a hang is a violation only when every task of the child is provably asleep "
@@ -90,7 +90,7 @@ REGISTRY = {
     "C20": {"engines": [eng("enc_roller", "vh_logging")], "assumptions": SEQ_ASSUME + [
         "the roller is driven through the cfg-gated accessors with a scripted forward-moving clock over a private directory"]},
     "C07": {"engines": [eng("spmc_stress", "vh_channels", budget_q=22, budget_t=300), stepper(budget_q=5, budget_t=60),
-                        asan("spmc_stress"), miri("spmc_stress", budget_t=240)],
+                        asan("spmc_stress"), tsan("spmc_stress", budget_t=120), miri("spmc_stress", budget_t=240)],
             "assumptions": COMMON_ASSUME + SAN_ASSUME + [
         "a clone's start position is exact because the cloning thread is the only user of the parent handle"]},
     "C11": {"engines": [eng("cache_hist", "vh_cache", budget_q=20, budget_t=180)], "assumptions": COMMON_ASSUME},
@@ -108,7 +108,7 @@ REGISTRY = {
     "C17": {"engines": [eng("cache_seq", "vh_cache", budget_q=20, budget_t=240)], "assumptions": SEQ_ASSUME},
     "C08": {"engines": [eng("topic_check", "vh_channels", budget_q=20, budget_t=240), asan("topic_check", budget_t=90)], "assumptions": SEQ_ASSUME + SAN_ASSUME + [
         "a receiver cloned after every sender handle is gone is unspecified by the statement: nothing is asserted about it"]},
-    "C10": {"engines": [eng("lock_stress", "vh_channels", budget_q=20, budget_t=240), asan("lock_stress"), miri("lock_stress", budget_t=240)],
+    "C10": {"engines": [eng("lock_stress", "vh_channels", budget_q=20, budget_t=240), asan("lock_stress"), tsan("lock_stress", budget_t=120), miri("lock_stress", budget_t=240)],
             "assumptions": COMMON_ASSUME + SAN_ASSUME + [
         "writer-not-starved is decided logically: readers may complete at most 10^6 further read sections after the writer "
         "called write(); the writer thread runs without injected delays in that scenario"]},
